@@ -660,7 +660,7 @@ def run(rep, tier, replay):
     # ---- TLC: exhaustive runs, DR7 table, generation graph (concurrently; <= 8 workers in total)
     jobs = {
         "E": dict(module="Watch_MC", cfg="Watch_E_quick.cfg" if quick else "Watch_E_thorough.cfg", workers=5,
-                  heap="6g", timeout=170 if quick else 1500, coverage=not quick, name="c14-E"),
+                  heap="6g", timeout=400 if quick else 1500, coverage=not quick, name="c14-E"),
         "W": dict(module="Watch_MC", cfg="Watch_E_aswritten.cfg", workers=1, heap="2g", timeout=300, name="c14-W"),
         "D": dict(module="Watch_MC", cfg="Watch_DR7.cfg", workers=1, heap="2g", timeout=300, name="c14-D"),
         "G": dict(module="Watch_MC", cfg="Watch_G_quick.cfg" if quick else "Watch_G.cfg", workers=1, heap="3g", timeout=600, name="c14-G"),
